@@ -10,7 +10,7 @@
    [wf_iface] is the boolean input domain (see ASSUMPTIONS of harness/props/c12.py). *)
 From Coq Require Import String Ascii List Bool NArith ZArith.
 From KV Require Import Model.CValue Model.Layout Model.ProtoLang Spec.LayoutSpec
-                       Proofs.LayoutBasics Proofs.LayoutEnv Proofs.LayoutPacked.
+                       Proofs.LayoutBasics Proofs.LayoutEnv Proofs.LayoutPacked Proofs.LayoutFactory.
 Import ListNotations.
 Open Scope string_scope.
 Open Scope list_scope.
@@ -73,6 +73,61 @@ Example C12_packed_nonvacuous :
   /\ option_map (fun s => map fi_off (si_fields s)) (layout_of (emit ex_iface) "sOuter") = Some [0; 26; 30; 44; 52]%N.
 Proof. vm_compute. repeat split; reflexivity. Qed.
 Print Assumptions C12_packed_nonvacuous.
+
+(* Factories.  [call (emit i) "Create<M>" args] = the bytes of the object the generated factory returns when it is
+   called with the first [length args] arguments, each argument being ANY object of the parameter's type (given
+   by its bytes: only its size is constrained), the remaining parameters taking their generated default arguments.
+   [msg_value i m args] = header {preamble, id, payload size = sizeof(M) - 8} ++ the arguments ++ the DECLARED
+   defaults of the remaining members (zero where none), nested structs flattened through any depth. *)
+Theorem C12_factory : forall i, wf_iface i = true -> forall m, In m (i_msgs i) ->
+  forall args,
+  (length args <= length (m_members m))%nat ->
+  Forall2 (fun x a => N.of_nat (length a) = m_size x) (firstn (length args) (m_members m)) args ->
+  call (emit i) ("Create" ++ m_name m) args = Some (msg_value i m args).
+Proof. exact msg_factory_value. Qed.
+Print Assumptions C12_factory.
+
+(* called without arguments: interface preamble, the message's type id, payload size, every field at its default *)
+Theorem C12_defaults : forall i, wf_iface i = true -> forall m, In m (i_msgs i) ->
+  call (emit i) ("Create" ++ m_name m) []
+  = Some (hdr_bytes (i_preamble i) (m_id m) (Z.of_N (si_size (msg_spec m) - hdr_size))
+          ++ concat (map default_bytes (m_members m))).
+Proof. exact msg_defaults. Qed.
+Print Assumptions C12_defaults.
+
+(* called with all arguments: header ++ the arguments, and argument j is found in the member of the same name *)
+Theorem C12_args : forall i, wf_iface i = true -> forall m, In m (i_msgs i) ->
+  forall args, Forall2 (fun x a => N.of_nat (length a) = m_size x) (m_members m) args ->
+  call (emit i) ("Create" ++ m_name m) args
+  = Some (hdr_bytes (i_preamble i) (m_id m) (Z.of_N (ms_size (m_members m))) ++ concat args)
+  /\ forall j a x f, nth_error args j = Some a -> nth_error (m_members m) j = Some x ->
+       nth_error (si_fields (msg_spec m)) (S j) = Some f ->
+       fi_name f = mem_name x /\ field_bytes (msg_spec m) (S j) (msg_value i m args) = a.
+Proof. exact msg_args. Qed.
+Print Assumptions C12_args.
+
+(* the payload-struct factories (Create<sStruct>) obey the same law, without header *)
+Theorem C12_struct_factory : forall i, wf_iface i = true -> forall s, In s (i_structs i) ->
+  forall args,
+  (length args <= length (s_members s))%nat ->
+  Forall2 (fun x a => N.of_nat (length a) = m_size x) (firstn (length args) (s_members s)) args ->
+  call (emit i) ("Create" ++ s_name s) args = Some (struct_value s args).
+Proof. exact struct_factory_value. Qed.
+Print Assumptions C12_struct_factory.
+
+Example C12_factory_nonvacuous :
+  wf_iface ex_iface = true
+  /\ In {| m_name := "MsgA"; m_id := 7; m_members := [MPrim "q" U32 (Some "9"); MStruct "o" "sOuter" ex_outer; MPrim "t" I8 None] |} (i_msgs ex_iface)
+  /\ option_map (map N_of_ascii) (call (emit ex_iface) "CreateMsgA" [])
+     = Some [239; 190; 7; 0; 58; 0; 0; 0;  9; 0; 0; 0;
+             0; 0; 0; 0; 0; 0; 248; 63;  5;  0; 0; 0; 0; 0; 0; 0; 0;  1;  0; 0; 0; 0;  253; 255;  239; 190;
+             205; 204; 204; 61;  5;  0; 0; 0; 0; 0; 0; 0; 0;  1;  0; 0; 0; 0;  0; 0; 0; 0; 0; 0; 0; 0;  128;  0]%N
+  /\ option_map (map N_of_ascii) (call (emit ex_iface) "CreateMsgA" [le_bytes 4 305419896])
+     = option_map (map N_of_ascii) (Some (msg_value ex_iface
+          {| m_name := "MsgA"; m_id := 7; m_members := [MPrim "q" U32 (Some "9"); MStruct "o" "sOuter" ex_outer; MPrim "t" I8 None] |}
+          [le_bytes 4 305419896])).
+Proof. vm_compute. repeat split; auto. Qed.
+Print Assumptions C12_factory_nonvacuous.
 
 (* The hypotheses are needed (the faithful model refutes the statement without them):
    (1) a struct without members has sizeof 1, not 0 (K-C12-2);  (2) a message id beyond uint16 is a narrowing error, the
